@@ -1322,7 +1322,7 @@ class SourceFinder(object):
             pmask = np.where(self.global_data.img == peaks)
             tmask = np.where(self.global_data.img == troughs)
             dcurve[pmask] = -1
-            dcurve[tmask] = 1
+            dcurve[tmask] += 1
             self.global_data.dcurve = dcurve
 
         # if either of rms or bkg images are not supplied
@@ -2071,7 +2071,9 @@ class SourceFinder(object):
                 ymin - buffy[0]: ymax + buffy[0]]
         )
         icurve[pmask] = -1
-        icurve[tmask] = 1
+        # a pixel that is both a local max and a local min (flat neighbourhood)
+        # has no curvature: 0 for the image and for its negative
+        icurve[tmask] += 1
         # icurve and idata need to be the same size so we crop
         # icurve based on the buffers that we computed
         icurve = icurve[
